@@ -73,7 +73,21 @@ func init() {
 	})
 }
 
-var actionKinds = []string{"A:res", "A:res2", "A:res3", "A:ticket", "A:webhook", "A:resthook", "A:classifier", "A:airtime", "A:gadd", "A:gremove",
+func init() {
+	// one node saving the same result key twice with different fixed categories
+	world.ActionSets["res13"] = func(fl, i int) []any {
+		return []any{
+			J{"uuid": world.ActUUID(fl, i, 0), "type": "set_run_result", "name": "Color", "value": "red", "category": "Red"},
+			J{"uuid": world.ActUUID(fl, i, 1), "type": "set_run_result", "name": "Color", "value": "blue", "category": "Blue"},
+		}
+	}
+	// a message whose quick replies exist only in a translation, which reads a global and a field
+	world.ActionSets["loc"] = func(fl, i int) []any {
+		return []any{J{"uuid": world.ActUUID(fl, i, 0), "type": "send_msg", "text": "hi"}}
+	}
+}
+
+var actionKinds = []string{"A:res13", "A:loc", "A:res", "A:res2", "A:res3", "A:ticket", "A:webhook", "A:resthook", "A:classifier", "A:airtime", "A:gadd", "A:gremove",
 	"A:field", "A:labels", "A:channel", "A:template", "A:msgtpl", "A:broadcast"}
 
 // router kinds are rendered here (they carry result names and group references)
@@ -81,11 +95,12 @@ var actionKinds = []string{"A:res", "A:res2", "A:res3", "A:ticket", "A:webhook",
 //	W, WT, R from the structural alphabet (W/WT save result "Answer"), plus
 //	G   split by group membership (has_group with a fixed group reference)
 //	RR  random router with a result name
-var routerKinds = []string{"W", "WT", "G", "RR", "Eo"}
+var routerKinds = []string{"W", "WT", "WA", "G", "RR", "Eo"}
 
 func init() {
 	world.KindExits["G"] = 2
 	world.KindExits["RR"] = 2
+	world.KindExits["WA"] = 2 // a wait whose node also has an action saving the SAME result key
 }
 
 // render renders flow 0 from a spec, adding the router kinds this check defines.
@@ -97,11 +112,21 @@ func render(spec world.FlowSpec) J {
 		if n.Kind == "G" || n.Kind == "RR" {
 			tmp.Nodes[i] = world.Node{Kind: "S", Dests: n.Dests}
 		}
+		if n.Kind == "WA" {
+			tmp.Nodes[i] = world.Node{Kind: "W", Dests: n.Dests}
+		}
 	}
 	fl := world.Render(0, tmp, 1)
 	nodes := fl["nodes"].([]any)
+	loc := J{}
 	for i, n := range spec.Nodes {
 		node := nodes[i].(J)
+		if n.Kind == "WA" {
+			node["actions"] = []any{J{"uuid": world.ActUUID(0, i, 0), "type": "set_run_result", "name": "Answer", "value": "none yet", "category": "No Reply Yet"}}
+		}
+		if n.Kind == "A:loc" {
+			loc[world.ActUUID(0, i, 0)] = J{"quick_replies": []any{"call @globals.secret", "I am @fields.gender"}}
+		}
 		cat := func(c int) string { return world.UUID(fmt.Sprintf("f0.n%d.c%d", i, c)) }
 		switch n.Kind {
 		case "G":
@@ -120,6 +145,9 @@ func render(spec world.FlowSpec) J {
 					J{"uuid": cat(1), "name": "Two", "exit_uuid": world.ExitUUID(0, i, 1)}}}
 		}
 	}
+	if len(loc) > 0 {
+		fl["localization"] = J{"spa": loc}
+	}
 	return fl
 }
 
@@ -132,6 +160,7 @@ func childFlow() J {
 type rootSpec struct {
 	Flow    world.FlowSpec `json:"flow"`
 	Trigger string         `json:"trigger"`
+	Lang    string         `json:"contact_language,omitempty"`
 }
 
 // vary names one input the influence test changes
@@ -147,6 +176,9 @@ func (rs *rootSpec) world(v *vary) *world.Root {
 	a["flows"] = []any{render(rs.Flow), childFlow()}
 	contact := world.DefaultContact()
 	contact["fields"] = J{"gender": J{"text": "F"}, "age": J{"text": "30", "number": 30}}
+	if rs.Lang != "" {
+		contact["language"] = rs.Lang
+	}
 	if v != nil {
 		switch v.Kind {
 		case "field":
@@ -189,7 +221,9 @@ func (rs *rootSpec) world(v *vary) *world.Root {
 	return &world.Root{Assets: a, Trigger: rs.Trigger, Contact: contact, Opt: world.Options{MaxSteps: 8}, DrawMenu: []float64{0, 0.5}}
 }
 
-func (rs *rootSpec) String() string { return rs.Flow.String() + " | trigger=" + rs.Trigger }
+func (rs *rootSpec) String() string {
+	return rs.Flow.String() + " | trigger=" + rs.Trigger + " contact-language=" + rs.Lang
+}
 
 type replay struct {
 	Spec rootSpec     `json:"spec"`
@@ -550,6 +584,13 @@ func specs(tier string) []rootSpec {
 		for _, f := range world.EnumFlows(kinds, n) {
 			for _, tr := range []string{"msg", "flow_action"} {
 				out = append(out, rootSpec{Flow: f, Trigger: tr})
+			}
+			// flows with translated content also run for a contact whose language selects the translation
+			for _, n := range f.Nodes {
+				if n.Kind == "A:loc" {
+					out = append(out, rootSpec{Flow: f, Trigger: "msg", Lang: "spa"})
+					break
+				}
 			}
 		}
 	}
